@@ -39,7 +39,7 @@ struct SlabEngine : Engine {
 	std::string profile; bool single = true, faultfree = true;
 	size_t max_small = 0;
 	// per task, current op bookkeeping
-	struct Cur { int map_calls = 0; uint32_t mapfail = 0, place = 0; bool failed_any = false; int maps_ok = 0, unmaps = 0; std::vector<uint64_t> mapped_bases; std::vector<Region> unmapped; int inflight_h = -1; } cur[MAXT];
+	struct Cur { int op_maps = 0; int map_calls = 0; uint32_t mapfail = 0, place = 0; bool failed_any = false; int maps_ok = 0, unmaps = 0; std::vector<uint64_t> mapped_bases; std::vector<Region> unmapped; int inflight_h = -1; int last_opid = -100; bool failed_injected = false; } cur[MAXT];
 	// footprint
 	std::map<uint64_t, int64_t> live_cls, peak_cls, slabs_cls;
 	static std::map<std::pair<int, uint64_t>, int64_t> bps_cache;
@@ -187,6 +187,7 @@ struct SlabEngine : Engine {
 					if (p.ntasks > 1 && cnt > 300) cnt = 300;
 					o.a[1] = (int64_t)(cs - rng.below(cs / 2 + 1)); if (o.a[1] < 1) o.a[1] = 1;
 					o.a[2] = (int64_t)cnt; o.a[3] = rng.below(4);
+					if (allow_large && rng.chance(1, 8)) { o.a[1] = (int64_t)(class_size(P.num_buckets - 1) + 1 + rng.below(3 * P.pagesize)); o.a[2] = 4 + rng.below(40); } // many large frames at once
 					if (rng.chance(2, 5)) {
 						// many slabs of one class made partial in a chosen address order: exercises the partial-slab tree
 						// (insertions in descending / ascending / random order, then repeated removal of the minimum)
@@ -232,10 +233,11 @@ struct SlabEngine : Engine {
 		probe(P_maps); total_maps++;
 		logev(0x4001, len, align);
 		if (locks_held(me) > 0) violation("policy_called_with_lock", "Policy::map(%zu) called by task %d while it holds %d pool lock(s)", len, me, locks_held(me));
-		int j = c.map_calls++;
+		c.map_calls++;
+		int j = c.op_maps++; // index of this map call within the whole plan op (a bulk/churn op makes many pool calls)
 		if (cur_plan && me >= 1) map_sites.push_back({(int)((me << 20) | cur_opid()), j});
 		if (j < 32 && (c.mapfail & (1u << j)) && !fair_phase_retry) {
-			c.failed_any = true; probe(P_mapfail_injected); count_fault(FK_MAPFAIL);
+			c.failed_any = true; c.failed_injected = true; probe(P_mapfail_injected); count_fault(FK_MAPFAIL);
 			for (int t = 1; t < MAXT; t++) if (t != me && locks_held(t) > 0) { probe(P_mapfail_while_other_holds); break; }
 			logev(0x4002, 0, 0);
 			return 0;
@@ -407,7 +409,8 @@ struct SlabEngine : Engine {
 	// ------------------------------------------------------------ op helpers
 	void begin_call(int me, const Op &op) {
 		Cur &c = cur[me];
-		c.map_calls = 0; c.mapfail = op.mapfail; c.place = op.place; c.failed_any = false; c.maps_ok = 0; c.unmaps = 0; c.mapped_bases.clear(); c.unmapped.clear();
+		if (cur_opid() != c.last_opid) { c.last_opid = cur_opid(); c.op_maps = 0; }
+		c.map_calls = 0; c.mapfail = op.mapfail; c.place = op.place; c.failed_any = false; c.failed_injected = false; c.maps_ok = 0; c.unmaps = 0; c.mapped_bases.clear(); c.unmapped.clear();
 		for (int t = 1; t < MAXT; t++) if (t != me && cur[t].inflight_h != -1) { probe(P_lock_contention); break; }
 		c.inflight_h = -2;
 	}
@@ -580,7 +583,7 @@ struct SlabEngine : Engine {
 			if (!p) { end_call(me); return false; }
 			probe(P_recovered);
 		} else if (c.failed_any) {
-			bool injected = false; for (int j = 0; j < c.map_calls && j < 32; j++) if (c.mapfail & (1u << j)) injected = true;
+			bool injected = c.failed_injected;
 			if (injected) violation("mapfail_not_null", "%s(%zu) returned +0x%llx although the map call it needed returned 0", what, n, (unsigned long long)off(p));
 		}
 		b.ptr = p; b.req = n; b.pat = fill_rng().next();
@@ -632,7 +635,7 @@ struct SlabEngine : Engine {
 			end_call(me);
 			return;
 		}
-		if (c.failed_any) { bool injected = false; for (int j = 0; j < c.map_calls && j < 32; j++) if (c.mapfail & (1u << j)) injected = true; if (injected) violation("mapfail_not_null", "realloc(%zu) returned non-null although the map call it needed returned 0", n); }
+		if (c.failed_any) { bool injected = c.failed_injected; if (injected) violation("mapfail_not_null", "realloc(%zu) returned non-null although the map call it needed returned 0", n); }
 		if (q == oldp) {
 			probe(P_realloc_inplace);
 			b.inflight = false;
@@ -729,7 +732,7 @@ struct SlabEngine : Engine {
 			uint64_t maps0 = total_maps; bool filled = false;
 			std::vector<int> got;
 			for (int x : hs) {
-				Op a = op; a.kind = OP_ALLOC; a.mapfail = 0;
+				Op a = op; a.kind = OP_ALLOC; // map-failure bits of the bulk op index its map calls across all of its pool calls
 				uint64_t before = total_maps;
 				if (!do_alloc(me, a, x, n, false)) break;
 				got.push_back(x); probe(P_bulk_blocks);
@@ -753,7 +756,7 @@ struct SlabEngine : Engine {
 					for (uint64_t s : order) { auto &v = by_slab[s]; size_t take = round ? 2 : 1; while (take-- && !v.empty()) { int x = v.back(); v.pop_back(); rel(x, 0); freed.push_back(x); } }
 					uint64_t maps1 = total_maps;
 					for (int x : freed) { Op a = op; a.kind = OP_ALLOC; a.mapfail = 0; if (!do_alloc(me, a, x, n, false)) break; progress(); }
-					if (single && faultfree && total_maps != maps1) violation("footprint", "re-allocating %zu blocks of %zu bytes that had just been freed (one or two per slab, %zu slabs) mapped %llu new region(s)", freed.size(), n, order.size(), (unsigned long long)(total_maps - maps1));
+					if (single && faultfree && n <= max_small && total_maps != maps1) violation("footprint", "re-allocating %zu blocks of %zu bytes that had just been freed (one or two per slab, %zu slabs) mapped %llu new region(s)", freed.size(), n, order.size(), (unsigned long long)(total_maps - maps1));
 					for (int x : freed) if (blk[x].live) { Region *r = find_region(off(blk[x].ptr)); by_slab[r ? r->base : 0].push_back(x); }
 					if (pat == 6) for (size_t i = order.size(); i > 1; i--) std::swap(order[i - 1], order[fill_rng().below(i)]);
 				}
@@ -764,7 +767,7 @@ struct SlabEngine : Engine {
 				for (size_t i = keep; i < got.size(); i++) rel(got[i], 0);
 				uint64_t maps1 = total_maps;
 				for (size_t i = keep; i < got.size(); i++) { Op a = op; a.kind = OP_ALLOC; a.mapfail = 0; if (!do_alloc(me, a, got[i], n, false)) break; progress(); }
-				if (single && faultfree && total_maps != maps1) violation("footprint", "refilling %zu just-freed blocks of %zu bytes mapped %llu new region(s) although the freed memory was available", got.size() - keep, n, (unsigned long long)(total_maps - maps1));
+				if (single && faultfree && n <= max_small && total_maps != maps1) violation("footprint", "refilling %zu just-freed blocks of %zu bytes mapped %llu new region(s) although the freed memory was available", got.size() - keep, n, (unsigned long long)(total_maps - maps1));
 				for (size_t i = keep; i < got.size(); i++) if (blk[got[i]].live) rel(got[i], 0);
 			}
 			break; }
